@@ -50,7 +50,7 @@ func init() {
 	mc.Def(mc.Check{
 		ID:    "C33",
 		Level: "exploration",
-		Rule: "bucket (Epoch, Open f4, Volume i4); CSV files of 0-3 data rows, fault-free or with ONE fault from {missing field, extra field, unparsable number, unparsable time, bare quote, integer outside the column type's range} at EVERY (row, field) position; imported through the client's \\\\load handler (real session code, API client bound to the server) and through loader.CSVtoNumpyMulti with chunk sizes {1,2,3,1000}; with a header row and with a column-name map. " +
+		Rule: "bucket (Epoch, Open f4, Volume i4); CSV files of 0-3 (thorough 0-5) data rows, fault-free or with ONE fault from {missing field, extra field, unparsable number, unparsable time, bare quote, integer outside the column type's range} at EVERY (row, field) position; imported through the client's \\\\load handler (real session code, API client bound to the server) and through loader.CSVtoNumpyMulti with chunk sizes {1,2,3,1000} (thorough {1..6,1000}); with a header row and with a column-name map. " +
 			"oracle: an error is reported, or the bucket holds every data row with the parsed values. non-trivial = files with a fault",
 		Assume:   []string{"UTC", "time format 20060102 15:04:05", "CSV and control files live on the vos device (cmd/connect packages are os-rewritten)", "export hook VerifLoad in package session"},
 		QuickMax: 5 * time.Minute, ThorMax: 15 * time.Minute,
@@ -60,8 +60,12 @@ func init() {
 func c33Enum(c *mc.Ctx, yield func(c33Spec)) {
 	faults := []string{"missing-field", "extra-field", "bad-number", "bad-time", "bare-quote", "out-of-range"}
 	for _, hdr := range []bool{true, false} {
-		for _, chunk := range []int{0, 1, 2, 3, 1000} {
-			for rows := 0; rows <= 3; rows++ {
+		chunks, maxRows := []int{0, 1, 2, 3, 1000}, 3
+		if c.Thorough() {
+			chunks, maxRows = []int{0, 1, 2, 3, 4, 5, 6, 1000}, 5
+		}
+		for _, chunk := range chunks {
+			for rows := 0; rows <= maxRows; rows++ {
 				yield(c33Spec{Rows: rows, Chunk: chunk, Header: hdr})
 				for _, f := range faults {
 					for r := 0; r < rows; r++ {
